@@ -3,7 +3,7 @@
    0x46af6449, 32 trailing zero steps).  Spec: Spec/Crc32.v (textbook bit-serial register, polynomial
    0x04C11DB7, initial value 0xFFFFFFFF, MSB first, no reflection, no final XOR).
    This file holds only the statements; proofs live in Proofs/CrcRegister.v. *)
-From Gots Require Import Base.Prelude Model.Crc Spec.Crc32 Proofs.CrcRegister Proofs.CrcUnique.
+From Gots Require Import Base.Prelude Model.Crc Spec.Crc32 Proofs.CrcRegister Proofs.CrcUnique Proofs.CrcTable.
 Local Open Scope N_scope.
 
 (* for EVERY byte string (no length bound, no side condition) the four bytes returned are the
@@ -52,6 +52,17 @@ Print Assumptions C13_residue_zero_iff.
 Theorem C13_crc_lt : forall bs : bytes, Crc32.crc bs < 4294967296.
 Proof. exact crc_lt. Qed.
 Print Assumptions C13_crc_lt.
+
+(* the specification itself, cross-validated: the usual table-driven byte-at-a-time definition of CRC-32/MPEG-2
+   (Crc32.crc_tab) is the bit-serial register on every byte string, hence also what ComputeCRC returns *)
+Theorem C13_table_driven_is_register : forall bs : bytes, is_bytes bs -> Crc32.crc_tab bs = Crc32.crc bs.
+Proof. exact crc_tab_is_crc. Qed.
+Print Assumptions C13_table_driven_is_register.
+
+Theorem C13_compute_crc_is_table_driven : forall bs : bytes, is_bytes bs ->
+  Crc.compute_crc bs = to_be32 (Crc32.crc_tab bs).
+Proof. intros bs H. rewrite crc_tab_is_crc by exact H. apply compute_crc_is_mpeg2. Qed.
+Print Assumptions C13_compute_crc_is_table_driven.
 
 (* non-vacuity / sanity of the specification: catalogue check value of CRC-32/MPEG-2 ("123456789" -> 0x0376E6E7),
    and the model on the same input *)
